@@ -345,9 +345,9 @@ def utctz():
 
 
 @specs.name('#operator_+')
-@specs.parameter('dt', yaqltypes.DateTime())
-@specs.parameter('ts', TIMESPAN_TYPE)
-def datetime_plus_timespan(dt, ts):
+@specs.parameter('left', yaqltypes.DateTime())
+@specs.parameter('right', TIMESPAN_TYPE)
+def datetime_plus_timespan(left, right):
     """:yaql:operator +
 
     Returns datetime object with added timespan.
@@ -364,13 +364,13 @@ def datetime_plus_timespan(dt, ts):
         yaql> let(now() + timespan(days => 100)) -> $.month
         10
     """
-    return dt + ts
+    return left + right
 
 
 @specs.name('#operator_+')
-@specs.parameter('ts', TIMESPAN_TYPE)
-@specs.parameter('dt', yaqltypes.DateTime())
-def timespan_plus_datetime(ts, dt):
+@specs.parameter('left', TIMESPAN_TYPE)
+@specs.parameter('right', yaqltypes.DateTime())
+def timespan_plus_datetime(left, right):
     """:yaql:operator +
 
     Returns datetime object with added timespan.
@@ -387,7 +387,7 @@ def timespan_plus_datetime(ts, dt):
         yaql> let(timespan(days => 100) + now()) -> $.month
         10
     """
-    return ts + dt
+    return left + right
 
 
 @specs.name('#operator_-')
@@ -723,9 +723,9 @@ def timespan_lte_timespan(ts1, ts2):
 
 
 @specs.name('#operator_*')
-@specs.parameter('ts', TIMESPAN_TYPE)
-@specs.parameter('n', yaqltypes.Number())
-def timespan_by_num(ts, n):
+@specs.parameter('left', TIMESPAN_TYPE)
+@specs.parameter('right', yaqltypes.Number())
+def timespan_by_num(left, right):
     """:yaql:operator *
 
     Returns timespan object built on timespan multiplied by number.
@@ -742,13 +742,13 @@ def timespan_by_num(ts, n):
         yaql> let(timespan(hours => 24) * 2) -> $.hours
         48.0
     """
-    return TIMESPAN_TYPE(microseconds=(microseconds(ts) * n))
+    return TIMESPAN_TYPE(microseconds=(microseconds(left) * right))
 
 
 @specs.name('#operator_*')
-@specs.parameter('n', yaqltypes.Number())
-@specs.parameter('ts', TIMESPAN_TYPE)
-def num_by_timespan(n, ts):
+@specs.parameter('left', yaqltypes.Number())
+@specs.parameter('right', TIMESPAN_TYPE)
+def num_by_timespan(left, right):
     """:yaql:operator *
 
     Returns timespan object built on number multiplied by timespan.
@@ -765,7 +765,7 @@ def num_by_timespan(n, ts):
         yaql> let(2 * timespan(hours => 24)) -> $.hours
         48.0
     """
-    return TIMESPAN_TYPE(microseconds=(microseconds(ts) * n))
+    return TIMESPAN_TYPE(microseconds=(microseconds(right) * left))
 
 
 @specs.name('#operator_/')
